@@ -355,6 +355,7 @@ func (w *world) ledgerAmount(a string) (common.Fixed64, error) {
 
 var devAbsent int
 var poolMode bool
+var ckpMode bool
 var maxPool int
 
 type outcome struct {
@@ -517,7 +518,8 @@ func main() {
 		sn, _ = strconv.Atoi(os.Args[4])
 	}
 	cacheMode := os.Args[1] == "cache"
-	poolMode = os.Args[1] == "mempool"
+	poolMode = os.Args[1] == "mempool" || os.Args[1] == "poolckp"
+	ckpMode = os.Args[1] == "poolckp"
 	opt := stack.Options{PoolGlue: poolMode}
 	if poolMode && len(os.Args) >= 6 {
 		maxPool, _ = strconv.Atoi(os.Args[5])
